@@ -9,6 +9,7 @@ import (
 
 	erpc "github.com/henrylee2cn/erpc/v6"
 	"github.com/henrylee2cn/erpc/v6/proto/httproto"
+	"github.com/henrylee2cn/erpc/v6/socket"
 	"github.com/henrylee2cn/erpc/v6/xfer/gzip"
 )
 
@@ -27,6 +28,9 @@ func rawFamily() *c02eng.Family {
 		Classes: cls,
 		Bad:     [][]byte{{0, 0, 0, 2, 0, 0}, {0, 0, 0, 9, 0, 0xff, 0xff, 0xff, 0xff}, {0, 0, 0, 6, 200, 1}},
 		Arg:     "x",
+		Other: func() []byte {
+			return c02eng.FrameBytes(nil, func(m socket.Message) { m.SetMtype(9); m.SetSeq(77); m.SetServiceMethod("/x") })
+		},
 	}
 }
 
